@@ -28,14 +28,14 @@ ASSUMPTIONS = ['A-eager: the eager implementation is the eager model e_run of Mo
                'non-canonical text); Coq decides canonicity (rec_canon); C05_spec_roundtrip shows every table has such a file',
                'BAM is generated read-only (no replace / write: the BAM writer refuses modified data and compresses its output); chunk sizes of '
                'BAM reads are >= the largest record (below that the reader ends the stream early in BOTH modes, C16/C01 matter); '
-               'CRLF SAM files are not generated (unreadable in both modes); float columns and Optional[int] with "." are not generated',
+               'float columns and Optional[int] with "." are not generated',
                'replacement arrays have the table length and the type the eager table itself holds for that field',
                't[i]: exact for lazily read tables of text formats with ragged columns (always raises); for materialised tables and for BAM '
                'the model states the row and an error of npstructures RaggedView2 under NumPy 2 is tolerated by model_ok; spec_ok reports '
                'it when only one mode fails']
 PARTIAL = ['C05_lazy_is_eager_partial (the property on the two models at HEAD) holds under m_guard_fixed (no concatenate of a lazy with a '
            'materialised table [C05_concat_mixed_refuted]; no t[i] on a lazily read table with ragged columns [C05_at_ragged_refuted]; no write of '
-           'a replaced column the writer cannot format [C05_write_replaced_refuted]; modified SAM rows have tags [C05_sam_empty_tags_refuted]; '
+           'a replaced column the writer cannot format [C05_write_replaced_refuted]; '
            'replacement columns of table length) and eager_guard (no header lines, no default header: [C05_eager_header_lost_refuted, '
            'C05_eager_write_fails_refuted, C05_eager_default_header_refuted])',
            'C05_refines_partial / C05_file_level_partial are about the concatenate BEFORE c5ab8ed (kept as history: first-operand keys), '
@@ -707,7 +707,7 @@ def generate(tier, seed):
         fmt = FMT_ORDER[i % len(FMT_ORDER)]
         nrec = rng.choice([1, 2, 3, 4])
         c = _gen_file(rng, fmt, nrec, True)
-        if (i // len(FMT_ORDER)) % 2 == 0 or fmt == 'sam':     # a CRLF SAM file cannot be read at all (either mode)
+        if (i // len(FMT_ORDER)) % 2 == 0:
             c['gz'] = True
         else:
             c['crlf'] = True
@@ -715,20 +715,22 @@ def generate(tier, seed):
         c['chunk'] = _chunk_choice(rng, c) if chunked else None
         c['prog'] = _gen_prog(rng, fmt, nrec, rng.randint(1, 6), True, chunked)
         cases.append(c)
-    # (g) SAM files whose tag-less rows are spelled with the separating tab (canonical for the eager writer), a field
-    #     replaced, then written: generated only once the finding is listed (the class is a known lazy/eager difference)
-    if _finding_listed('C05-sam-empty-tags-trailing-tab'):
-        for i in range(24 if tier == 'quick' else 100):
-            nrec = rng.choice([1, 2, 3])
-            c = _gen_file(rng, 'sam', nrec, True)
-            for k, rec in enumerate(c['recs']):
-                if k == 0 or rng.random() < 0.5:
-                    rec[11] = ''
-            c['sam_tab'] = True
-            c['chunk'] = None
-            f = rng.choice([1, 3, 4, 9])
-            c['prog'] = [['write', 0], ['rep', 0, f, _new_vals(rng, 'sam', f, nrec)], ['write', 0], ['tolist', 0]]
-            cases.append(c)
+    # (g) SAM files with tag-less rows — spelled without the separating tab (canonical: what both writers print since
+    #     81bde1f) and with it —, written, a field replaced, written again: lazy and eager must agree byte for byte
+    for i in range(36 if tier == 'quick' else 150):
+        nrec = rng.choice([1, 2, 3])
+        c = _gen_file(rng, 'sam', nrec, True)
+        for k, rec in enumerate(c['recs']):
+            if k == 0 or rng.random() < 0.5:
+                rec[11] = ''
+        c['sam_tab'] = (i % 3 == 2)
+        c['chunk'] = None
+        f = rng.choice([1, 3, 4, 9, 11])
+        vals = _new_vals(rng, 'sam', f, nrec)
+        if f == 11 and i % 2:
+            vals[0] = ''                       # a tags column replaced by an empty value
+        c['prog'] = [['write', 0], ['rep', 0, f, vals], ['write', 0], ['tolist', 0], ['write', 1]]
+        cases.append(c)
     cases.sort(key=lambda c: len(c['prog']) + len(c['recs']))
     seen, out = set(), []
     for c in cases:
@@ -875,8 +877,8 @@ def _canonical(case):
         for (name, kind), t in zip(FORMATS[case['fmt']]['fields'], rec):
             if kind in ('int', 'int1') and str(int(t)) != t:
                 return False
-        if case['fmt'] == 'sam' and rec[11] == '' and not case.get('sam_tab'):
-            return False
+        if case['fmt'] == 'sam' and rec[11] == '' and case.get('sam_tab'):
+            return False          # a trailing tab before an empty tags field is not what the writers print (81bde1f)
     return case['fmt'] != 'bam'
 
 
@@ -956,11 +958,6 @@ def _explain_steps(case, o):
             elif k == 'write' and a.get('e') in ('ValueError', 'TypeError') and 'v' in b and fmt == 'fastq' and 2 in regs[r].setk \
                     and regs[r].kind == 'lazy' and regs[r].n > 0:
                 why = 'C05-replaced-column-not-writable'
-            elif k == 'write' and 'v' in a and 'v' in b and fmt == 'sam' and regs[r].kind == 'lazy' and regs[r].setk \
-                    and bytes.fromhex(a['v']) != bytes.fromhex(b['v']) \
-                    and bytes.fromhex(b['v']).replace(b'\t\n', b'\n') == bytes.fromhex(a['v']):
-                # modified lazy write: SAMBuffer.join_fields writes no tab before an empty tags field, the eager writer does
-                why = 'C05-sam-empty-tags-trailing-tab'
             elif k == 'write' and 'v' in a and 'v' in b and _header_lost(case, a['v'], b['v']):
                 why = 'C05-header-lost-on-derived-eager-table'
             out.append((i, why))
